@@ -31,7 +31,7 @@
                      for PointwiseNorm, |z| > 0 for ComplexModulus.  (Norm/Dist singularities are covered by
                      [deriv_ok]: the code raises there.) *)
 From Coq Require Import Reals List Bool ZArith.
-From Verif Require Import Base.Num Base.Vec C06.Syntax Gen.UfuncDeriv C06.Model C06.Calc C06.Lin C06.LinMap C06.Leaves C06.Proofs C06.FModel C06.FProofs Gen.Derivatives C06.Interp C06.Tie Gen.Gradients C06.FInterp C06.FTie Base.Transfer C06.Corr C06.Transfer.
+From Verif Require Import Base.Num Base.Vec C06.Syntax Gen.UfuncDeriv C06.Model C06.Calc C06.Lin C06.LinMap C06.Leaves C06.Proofs C06.FModel C06.FProofs Gen.Derivatives C06.Interp C06.Tie Gen.Gradients C06.FInterp C06.FTie Base.Transfer C06.Corr C06.Transfer C06.Frechet C06.FrechetTrees.
 From Coq Require Import QArith Qreals.
 Local Open Scope R_scope.
 Import ListNotations.
@@ -157,6 +157,71 @@ Theorem frechet_derivative_unique :
   forall d, length d = n -> L d = L' d.
 Proof. exact hdiff_unique. Qed.
 Print Assumptions frechet_derivative_unique.
+
+(* ---- The LITERAL Frechet statement: little-o in the norm (C06/Frechet.v, FrechetTrees.v) ----
+   [supn h] = max_i |h_i| ;  [norm2 h] = sqrt (sum_i h_i^2) ;
+   [fdiff n m F x L] : F : R^n -> R^m, x in R^n, L maps R^n to R^m and
+       for every eps > 0 there is delta > 0 with
+       | F(x+h)_i - F(x)_i - (L h)_i | <= eps * supn h   for all i < m, supn h < delta.
+   For every tree, at every regular point where derivative(x) returns, the returned
+   object evaluates to THE Frechet derivative:  || F(x+h) - F(x) - D h || = o(||h||).
+   Proof: structural induction with the Frechet calculus (chain rule, products,
+   concatenation, entry-wise C^1 maps, linear maps are norm-bounded) gives SOME bounded
+   linear Frechet derivative; it agrees with the Hadamard derivative of T1.
+   Added premise on user-defined leaves: they are Frechet differentiable. *)
+Theorem derivative_is_frechet_in_sup_norm :
+  forall (af : nat -> list R -> list R) (ad : nat -> list R -> list R -> list R) (adm arn : nat -> space),
+  (forall k x, length x = sdim (adm k) ->
+     hdiff (sdim (adm k)) (sdim (arn k)) (af k) x (ad k x) /\
+     blin (sdim (adm k)) (sdim (arn k)) (ad k x)) ->
+  (forall k x, length x = sdim (adm k) ->
+     exists L, fdiff (sdim (adm k)) (sdim (arn k)) (af k) x L /\ blin (sdim (adm k)) (sdim (arn k)) L) ->
+  forall (e : @oexpr R) (x : list R),
+  let P := PR af ad adm arn in
+  wt P e = true -> length x = sdim (dom P e) -> deriv_ok P e x = true -> regular af ad adm arn e x ->
+  forall eps, 0 < eps -> exists delta, 0 < delta /\
+    forall h, length h = sdim (dom P e) -> supn h < delta ->
+      supn (vsub (vsub (eval P e (vadd x h)) (eval P e x)) (eval P (derivative P e x) h)) <= eps * supn h.
+Proof. exact deriv_frechet_norm. Qed.
+Print Assumptions derivative_is_frechet_in_sup_norm.
+
+Theorem derivative_is_frechet_in_euclidean_norm :
+  forall (af : nat -> list R -> list R) (ad : nat -> list R -> list R -> list R) (adm arn : nat -> space),
+  (forall k x, length x = sdim (adm k) ->
+     hdiff (sdim (adm k)) (sdim (arn k)) (af k) x (ad k x) /\
+     blin (sdim (adm k)) (sdim (arn k)) (ad k x)) ->
+  (forall k x, length x = sdim (adm k) ->
+     exists L, fdiff (sdim (adm k)) (sdim (arn k)) (af k) x L /\ blin (sdim (adm k)) (sdim (arn k)) L) ->
+  forall (e : @oexpr R) (x : list R),
+  let P := PR af ad adm arn in
+  wt P e = true -> length x = sdim (dom P e) -> deriv_ok P e x = true -> regular af ad adm arn e x ->
+  forall eps, 0 < eps -> exists delta, 0 < delta /\
+    forall h, length h = sdim (dom P e) -> norm2 h < delta ->
+      norm2 (vsub (vsub (eval P e (vadd x h)) (eval P e x)) (eval P (derivative P e x) h)) <= eps * norm2 h.
+Proof. exact deriv_frechet_norm2. Qed.
+Print Assumptions derivative_is_frechet_in_euclidean_norm.
+
+(* the pieces, for arbitrary maps on R^n: the chain rule for Frechet derivatives, and
+   a Frechet derivative is the Hadamard derivative (so T1 and the literal statement
+   speak of the same linear map) *)
+Theorem frechet_chain_rule :
+  forall n k m (F G : list R -> list R) x (L1 L2 : list R -> list R),
+  fdiff n k G x L2 -> blin n k L2 -> fdiff k m F (G x) L1 -> blin k m L1 ->
+  fdiff n m (fun y => F (G y)) x (fun d => L1 (L2 d)).
+Proof. exact fdiff_comp. Qed.
+Print Assumptions frechet_chain_rule.
+
+Theorem frechet_derivative_is_hadamard_derivative :
+  forall n m (F : list R -> list R) x (L Lh : list R -> list R),
+  fdiff n m F x L -> blin n m L -> hdiff n m F x Lh -> forall d, length d = n -> L d = Lh d.
+Proof. exact fdiff_hdiff_agree. Qed.
+Print Assumptions frechet_derivative_is_hadamard_derivative.
+
+Theorem linear_maps_are_norm_bounded :
+  forall n m (L : list R -> list R), blin n m L ->
+  exists M, 0 <= M /\ forall h, length h = n -> supn (L h) <= M * supn h.
+Proof. exact blin_bnd. Qed.
+Print Assumptions linear_maps_are_norm_bounded.
 
 (* T1. Every entry of the derivative table REGENERATED from
    ufunc_ops.derivative_factory is the derivative of its ufunc (sin |-> cos,
@@ -327,6 +392,11 @@ Example user_leaf_premise_holds :
   hdiff (sdim (ex_dm k)) (sdim (ex_dm k)) (ex_af k) x (ex_ad k x) /\
   blin (sdim (ex_dm k)) (sdim (ex_dm k)) (ex_ad k x).
 Proof. exact ex_Habs. Qed.
+
+Example user_leaf_frechet_premise_holds :
+  forall k x, length x = sdim (ex_dm k) ->
+  exists L, fdiff (sdim (ex_dm k)) (sdim (ex_dm k)) (ex_af k) x L /\ blin (sdim (ex_dm k)) (sdim (ex_dm k)) L.
+Proof. exact ex_HabsF. Qed.
 
 (* ---- and the premises on (e, x) are satisfiable by a tree using every class ---- *)
 Example premises_hold :
